@@ -51,8 +51,8 @@ func (r *Rand) Intn(n int) int {
 	}
 	return r.IntN(n)
 }
-func (r *Rand) Range(lo, hi int) int { return lo + r.Intn(hi-lo+1) }
-func (r *Rand) Chance(p float64) bool { return r.Float64() < p }
+func (r *Rand) Range(lo, hi int) int    { return lo + r.Intn(hi-lo+1) }
+func (r *Rand) Chance(p float64) bool   { return r.Float64() < p }
 func (r *Rand) Pick(xs []string) string { return xs[r.Intn(len(xs))] }
 
 // esc mirrors Sts.Drv.esc/unesc: tokens never contain spaces.
@@ -102,22 +102,29 @@ type OracleFailure struct {
 }
 
 type Stats struct {
-	Component          string            `json:"component"`
-	Seed               uint64            `json:"seed"`
-	Tier               string            `json:"tier"`
-	Cases              int               `json:"cases"`
-	Ops                int               `json:"ops"`
-	DistinctNontrivial int               `json:"distinct_nontrivial"`
-	Rule               string            `json:"rule"`
-	OpMix              map[string]int    `json:"op_mix"`
-	AnswerMix          map[string]int    `json:"answer_mix"`
-	Samples            [][]string        `json:"samples"`
-	OracleFailures     []OracleFailure   `json:"oracle_failures"`
-	Extra              map[string]any    `json:"extra,omitempty"`
+	Component          string          `json:"component"`
+	Seed               uint64          `json:"seed"`
+	Tier               string          `json:"tier"`
+	Cases              int             `json:"cases"`
+	Ops                int             `json:"ops"`
+	DistinctNontrivial int             `json:"distinct_nontrivial"`
+	Rule               string          `json:"rule"`
+	OpMix              map[string]int  `json:"op_mix"`
+	AnswerMix          map[string]int  `json:"answer_mix"`
+	Samples            [][]string      `json:"samples"`
+	OracleFailures     []OracleFailure `json:"oracle_failures"`
+	Extra              map[string]any  `json:"extra,omitempty"`
 }
 
 type ruler interface{ Rule() string }
-type answerClass interface{ AnswerClass(op []string, ans string) string }
+
+// rewriter lets an executor resolve run-time values in an op line (time base, directory
+// walk order) before it is executed; the resolved line is what ops.txt records and what the
+// model driver reads.
+type rewriter interface{ Rewrite(op []string) []string }
+type answerClass interface {
+	AnswerClass(op []string, ans string) string
+}
 
 // runCases executes cases, writing ops.txt / impl.txt / stats.json into dir.
 func runCases(c Component, cases [][]string, seed uint64, tier, dir string) error {
@@ -151,6 +158,10 @@ func runCases(c Component, cases [][]string, seed uint64, tier, dir string) erro
 			op := strings.Fields(line)
 			if len(op) == 0 {
 				continue
+			}
+			if rw, ok := ex.(rewriter); ok {
+				op = rw.Rewrite(op)
+				line = strings.Join(op, " ")
 			}
 			ans := safeDo(ex, op)
 			fmt.Fprintln(ow, line)
